@@ -77,6 +77,20 @@ func parseStatus(out string) string {
 // answer wins.  If all==true every back end runs to completion and a
 // disagreement is reported as status "disagree".
 func Solve(d *Decls, asserts []*Term, getValues []*Term, timeoutS int, all bool, tag string) SolverResult {
+	if all || coverMode(tag) || timeoutS <= 4 {
+		return solveWith(backends, d, asserts, getValues, timeoutS, all, tag)
+	}
+	// stage 1: two fast back ends with a short limit; stage 2: the full portfolio
+	r := solveWith(backends[:1], d, asserts, getValues, 2, false, tag)
+	if r.Status == "sat" || r.Status == "unsat" {
+		return r
+	}
+	r2 := solveWith(backends, d, asserts, getValues, timeoutS, false, tag)
+	r2.Time += r.Time
+	return r2
+}
+
+func solveWith(backends []backend, d *Decls, asserts []*Term, getValues []*Term, timeoutS int, all bool, tag string) SolverResult {
 	id := atomic.AddInt64(&queryCounter, 1)
 	base := filepath.Join(workDir, fmt.Sprintf("q%06d", id))
 	type one struct {
